@@ -11,6 +11,7 @@ namespace {
 const uint8_t END = 0xc0, ESC = 0xdb, ESC_END = 0xdc, ESC_ESC = 0xdd;
 
 typedef std::vector<uint8_t> Bytes;
+static RFC1055Context g_last_ctx; static bool g_have_ctx = false;   // the link's context as the last decode call left it
 
 struct SlipHarness : Harness {
     const char *name() const override { return "slipsim"; }
@@ -18,7 +19,7 @@ struct SlipHarness : Harness {
     std::vector<std::string> probes(const std::string &) const override {
         return {"garbage_ends_in_esc", "garbage_without_delimiter", "garbage_esc_followed_by_end", "sof_first_frame_lost", "empty_frame_sof", "empty_frame_classic",
                 "sink_error_on_escaped_octet", "encoder_source_error", "encoder_sink_error", "decoder_source_error", "decoder_sink_error", "illegal_sequence_reported",
-                "resynchronised_after_garbage", "concatenated_frames", "worst_case_length_reached", "source_error_between_frames_then_retry"};
+                "resynchronised_after_garbage", "concatenated_frames", "worst_case_length_reached", "source_error_between_frames_then_retry", "encode_while_decoder_is_inside_a_frame"};
     }
     uint64_t runs(const std::string &, const Tier &t) const override { return t.thorough() ? 30000000 : 2500000; }
 
@@ -125,7 +126,7 @@ struct SlipHarness : Harness {
 
     // ------------------------------------------------------------ helpers around the real code
     struct Enc { int rc; Bytes out; bool finished; int64_t src_err, snk_err; };
-    Enc encode(Ctx &c, bool sof, bool so, bool ko, const Bytes &payload, const Json *partial, int where, int64_t pos, int code) {
+    Enc encode(Ctx &c, bool sof, bool so, bool ko, const Bytes &payload, const Json *partial, int where, int64_t pos, int code, const RFC1055Context *use = nullptr) {
         SimSource src; SimSink snk; src.c = &c; snk.c = &c;
         src.octet_kind = so; snk.octet_kind = ko;
         src.data = payload; src.begin_op(); snk.begin_op();
@@ -134,6 +135,7 @@ struct SlipHarness : Harness {
         if (where == 1) { snk.err_pos = pos; snk.err_code = code; }
         Source source; Sink sink; src.bind(&source); snk.bind(&sink);
         RFC1055Context ctx; rfc1055_context_init(&ctx, sof ? RFC1055_WITH_SOF : RFC1055_DEFAULT);
+        if (use) ctx = *use;   // a link's context as its decoder left it (the encoder takes it as const: only the mode may matter)
         Enc e; e.rc = 0;
         e.finished = WITH_BUDGET(c, 8 * payload.size() + 64, e.rc = rfc1055_encode(&ctx, &source, &sink));
         c.ev(EV_API, 1, (uint64_t)e.rc, snk.got.size());
@@ -161,13 +163,30 @@ struct SlipHarness : Harness {
             finished = WITH_BUDGET(c, 4 * (src.data.size() - src.pos) + 64, rc = rfc1055_decode(&ctx, &source, &sink));
             c.ev(EV_API, 2, (uint64_t)(int64_t)rc, snk.got.size() - s0);
             c.ops_done++; c.execs++;
+            g_last_ctx = ctx; g_have_ctx = true;
             frame.assign(snk.got.begin() + (long)s0, snk.got.end());
             consumed = src.pos - p0;
             return rc;
         }
     };
 
+    // One context per full-duplex link is legitimate use: the encoder must produce the same frame whatever state the link's decoder is in.
+    void encode_on_used_context(Ctx &c, bool sof, bool so, bool ko, const std::vector<Bytes> &F, const std::vector<Bytes> &encs, const RFC1055Context &used) {
+        if (!c.viol.empty() || F.empty() || encs.empty()) return;
+        Enc e = encode(c, sof, so, ko, F[0], nullptr, -1, 0, 0, &used);
+        if (!e.finished) { c.fail("noprogress.encode", "encoder did not return within the step budget"); return; }
+        if (used.state != (sof ? RFC1055Context::RFC1055_SEARCH_FOR_START : RFC1055Context::RFC1055_NORMAL)) COUNT("probe.encode_while_decoder_is_inside_a_frame");
+        if (e.rc < 0 || e.out != encs[0]) c.fail("form.encode_shared_context", "encoding through the link's context (decoder state %d) differs from the encoding through a fresh one (rc %d, %zu vs %zu octets)", (int)used.state, e.rc, e.out.size(), encs[0].size());
+    }
+
     void exec(const Json &plan, Ctx &c) override {
+        g_have_ctx = false; last_F.clear(); last_encs.clear();
+        exec_inner(plan, c);
+        if (g_have_ctx) encode_on_used_context(c, plan.geti("sof") != 0, plan.geti("src_octet") != 0, plan.geti("snk_octet") != 0, last_F, last_encs, g_last_ctx);
+    }
+    std::vector<Bytes> last_F, last_encs;
+
+    void exec_inner(const Json &plan, Ctx &c) {
         const bool sof = plan.geti("sof") != 0, so = plan.geti("src_octet") != 0, ko = plan.geti("snk_octet") != 0;
         const std::string fam = plan.gets("fam", "roundtrip");
         std::vector<Bytes> F;
@@ -210,6 +229,7 @@ struct SlipHarness : Harness {
             line.insert(line.end(), o.begin(), o.end());
         }
         if (!c.viol.empty()) return;
+        last_F = F; last_encs = encs;
 
         if (fam == "roundtrip" || fam == "errors") {
             Dec D(c, sof, so, ko, line);
